@@ -8,12 +8,16 @@ package c15
 
 import (
 	"bytes"
+	"encoding/binary"
 	"fmt"
 	"math/big"
 	"os"
 	"path/filepath"
+	"reflect"
 	"sort"
+	"sync"
 	"time"
+	"unsafe"
 
 	cfg "github.com/lianxiangcloud/linkchain/config"
 	"github.com/lianxiangcloud/linkchain/libs/common"
@@ -66,6 +70,13 @@ var instTable = []inst{
 }
 
 var coinAmount = appx.LKC(3)
+
+// restDropTime: time-based eviction of pooled transactions (mempool.GoodTxDropTime, 60 s in a
+// node) is driven by the harness - set to 0 for a commit "after the drop time has elapsed" -
+// and never by the clock: a starved process must not evict anything.
+const restDropTime = 24 * time.Hour
+
+func init() { mempl.GoodTxDropTime = restDropTime }
 
 type world struct {
 	in      inst
@@ -191,7 +202,7 @@ func (w *world) base(bal []int) (*chainBase, error) {
 		}
 	}
 	b.coins = coins
-	spendFee := appx.Fee(e.SpendFeeGas(coinAmount))
+	spendFee := appx.DepositFee(coinAmount) // confidential->account: the fee of the amount moved (an upper bound)
 	// the concrete transactions
 	for i, d := range w.defs {
 		var tx types.Tx
@@ -299,26 +310,151 @@ func (w *world) newPair(b *chainBase, size, fsize, usize int) (*pair, error) {
 	dA, dB := w.newDir("a"), w.newDir("b")
 	p.dirs = []string{dA, dB}
 	var err error
-	if p.A, err = appx.Boot(b.dbs.Clone(dA), w.in.IsTrie, p.mc); err != nil {
+	// The node under test runs the real dedup cache (txHeapManager).  Its constructor pre-sizes
+	// four 100000-entry maps (42 MB) and starts four goroutines that never stop; with thousands
+	// of boots per process that dominates the run.  The harness therefore boots the pool without
+	// a cache and installs a cache object of the SAME type with small maps and no expiry
+	// goroutines (committed entries then linger for the whole behaviour, as they do for 30 s in
+	// a node); if that is not possible the pool is booted the ordinary way.
+	light := lightCacheAvailable()
+	if light {
+		p.mc.CacheSize = 0
+	}
+	if p.A, err = appx.Boot(b.clone(dA), w.in.IsTrie, p.mc); err != nil {
 		return nil, err
+	}
+	if light && !installLightCache(p.A.MP) {
+		lightCacheBroken = true
+		p.A.Stop()
+		os.RemoveAll(dA)
+		p.mc.CacheSize = 1000
+		if p.A, err = appx.Boot(b.clone(dA), w.in.IsTrie, p.mc); err != nil {
+			return nil, err
+		}
 	}
 	mcB := appx.MempoolConfig()
 	mcB.CacheSize = 0
-	if p.B, err = appx.Boot(b.dbs.Clone(dB), w.in.IsTrie, mcB); err != nil {
+	if p.B, err = appx.Boot(b.clone(dB), w.in.IsTrie, mcB); err != nil {
 		return nil, err
 	}
 	return p, nil
 }
 
+// clone copies the chain.  The flat state database records its height through a
+// package-global buffer (state.saveHeight) that the in-tree MemDB stores without copying,
+// so the entry of every MemDB in the process shows the height saved last by ANY instance:
+// the clone gets its own copy of the right value.
+func (b *chainBase) clone(dir string) *appx.DBs {
+	d := b.dbs.Clone(dir)
+	h := make([]byte, 8)
+	binary.BigEndian.PutUint64(h, b.height)
+	if d.State.Get([]byte("kvh")) != nil {
+		d.State.Set([]byte("kvh"), h)
+	}
+	return d
+}
+
 func (p *pair) close() {
 	if p.A != nil {
 		p.A.Stop()
+		releaseTxCache(p.A.MP)
 	}
 	if p.B != nil {
 		p.B.Stop()
 	}
 	for _, d := range p.dirs {
 		os.RemoveAll(d)
+	}
+}
+
+var (
+	lightOnce        sync.Once
+	lightMgrType     reflect.Type // struct txHeapManager
+	lightCacheBroken bool
+)
+
+// lightCacheAvailable: learn the cache's types from one pool built by the real constructor.
+func lightCacheAvailable() bool {
+	lightOnce.Do(func() {
+		defer func() {
+			if recover() != nil {
+				lightMgrType = nil
+			}
+		}()
+		mc := appx.MempoolConfig()
+		donor := mempl.NewMempool(mc, 0, nil)
+		defer donor.Stop()
+		v := reflect.ValueOf(donor).Elem().FieldByName("cache")
+		if v.Kind() == reflect.Interface && !v.IsNil() && v.Elem().Kind() == reflect.Ptr && v.Elem().Type().Elem().Name() == "txHeapManager" {
+			lightMgrType = v.Elem().Type().Elem()
+		}
+		releaseTxCache(donor)
+	})
+	return lightMgrType != nil && !lightCacheBroken
+}
+
+func setUnexported(field reflect.Value, val reflect.Value) {
+	reflect.NewAt(field.Type(), unsafe.Pointer(field.UnsafeAddr())).Elem().Set(val)
+}
+
+// installLightCache gives the pool a txHeapManager with four small txHeaps.
+func installLightCache(mem *mempl.Mempool) (ok bool) {
+	defer func() {
+		if recover() != nil {
+			ok = false
+		}
+	}()
+	mgr := reflect.New(lightMgrType)
+	hField := mgr.Elem().FieldByName("h") // []*txHeap
+	heapT := hField.Type().Elem().Elem()  // struct txHeap
+	hs := reflect.MakeSlice(hField.Type(), 4, 4)
+	for i := 0; i < 4; i++ {
+		h := reflect.New(heapT)
+		items := h.Elem().FieldByName("items") // *expireHashHeap
+		setUnexported(items, reflect.New(items.Type().Elem()))
+		txMap := h.Elem().FieldByName("txMap")
+		setUnexported(txMap, reflect.MakeMap(txMap.Type()))
+		expire := h.Elem().FieldByName("expire")
+		setUnexported(expire, reflect.ValueOf(int64(30)))
+		hs.Index(i).Set(h)
+	}
+	setUnexported(hField, hs)
+	cache := reflect.ValueOf(mem).Elem().FieldByName("cache")
+	if cache.Kind() != reflect.Interface {
+		return false
+	}
+	setUnexported(cache, mgr)
+	// it must behave: an unknown hash is absent
+	return mem.GetTxFromCache(common.Hash{0x5a}) == nil
+}
+
+// releaseTxCache: harness hygiene after a behaviour is over.  Every mempool pre-sizes four
+// 100000-entry cache maps that its background goroutines (which never stop) keep alive;
+// thousands of boots per process would pin tens of GB.  The maps of the discarded pool are
+// replaced by empty ones (under the cache's own lock).  Nothing is observed afterwards.
+func releaseTxCache(mem *mempl.Mempool) {
+	defer func() { recover() }() // a different layout: leave it alone
+	v := reflect.ValueOf(mem).Elem().FieldByName("cache")
+	if !v.IsValid() || v.Kind() != reflect.Interface || v.IsNil() {
+		return
+	}
+	mgr := v.Elem()
+	if mgr.Kind() != reflect.Ptr {
+		return
+	}
+	hs := mgr.Elem().FieldByName("h")
+	for i := 0; i < hs.Len(); i++ {
+		h := hs.Index(i).Elem()
+		mu := (*sync.RWMutex)(unsafe.Pointer(h.FieldByName("RWMutex").UnsafeAddr()))
+		mu.Lock()
+		items := h.FieldByName("items")
+		ip := reflect.NewAt(items.Type(), unsafe.Pointer(items.UnsafeAddr())).Elem()
+		if !ip.IsNil() {
+			ip.Elem().Set(reflect.Zero(ip.Elem().Type()))
+		}
+		tm := h.FieldByName("txMap")
+		reflect.NewAt(tm.Type(), unsafe.Pointer(tm.UnsafeAddr())).Elem().Set(reflect.MakeMap(tm.Type()))
+		mu.Unlock()
 	}
 }
 
@@ -401,7 +537,7 @@ func (p *pair) commitBoth(blkA, blkB *types.Block, expire bool) string {
 		mempl.GoodTxDropTime = 0
 	}
 	err := p.A.Commit(blkA)
-	mempl.GoodTxDropTime = 60 * time.Second
+	mempl.GoodTxDropTime = restDropTime
 	if err != nil {
 		return "node CommitBlock: " + err.Error()
 	}
@@ -415,7 +551,8 @@ func (p *pair) commitBoth(blkA, blkB *types.Block, expire bool) string {
 	return ""
 }
 
-// commitOwn: the node proposes Reap(k); the replica validates; both commit.
+// commitOwn: the node proposes Reap(k); the replica validates; both commit.  As in a
+// node, everybody (the proposer included) works on a block decoded from its parts.
 func (p *pair) commitOwn(k int, expire bool) (ids []int, kind, detail string) {
 	blk, pm := p.propose(k)
 	if pm != "" {
@@ -426,7 +563,11 @@ func (p *pair) commitOwn(k int, expire bool) (ids []int, kind, detail string) {
 	if msg != "" {
 		return ids, "cold-checkblock", msg
 	}
-	if msg := p.commitBoth(blk, rb, expire); msg != "" {
+	ra, _, err := appx.Redecode(blk)
+	if err != nil {
+		return ids, "commit", err.Error()
+	}
+	if msg := p.commitBoth(ra, rb, expire); msg != "" {
 		return ids, "commit", msg
 	}
 	return ids, "", ""
@@ -442,15 +583,15 @@ func (p *pair) commitForeign(txs types.Txs) string {
 	}); msg != "" {
 		return "foreign proposer could not execute the block: " + msg
 	}
-	okB := false
-	if msg := guard(func() { okB = p.B.App.CheckBlock(blk) }); msg != "" || !okB {
-		return "foreign proposer's own CheckBlock failed " + msg
-	}
 	ra, _, err := appx.Redecode(blk)
 	if err != nil {
 		return "block does not survive encode/decode: " + err.Error()
 	}
-	return p.commitBoth(ra, blk, false)
+	rb, msg := p.coldCheck(blk)
+	if msg != "" {
+		return "foreign proposer's block: " + msg
+	}
+	return p.commitBoth(ra, rb, false)
 }
 
 // ---- what is observed after every step ------------------------------------
